@@ -5,7 +5,7 @@ from hypothesis import strategies as st
 from vlib.gen.mutate import walk
 
 KINDS = ["permute-definitions", "permute-selections", "permute-arguments", "permute-variable-definitions",
-         "rename-aliases", "rename-fragments", "rename-variables", "rename-operations", "respace", "name-collisions"]
+         "rename-aliases", "rename-fragments", "rename-variables", "rename-operations", "respace", "name-collisions", "wrap-bare-inline-fragment"]
 
 
 def apply(draw, doc, kind, A):
@@ -60,6 +60,15 @@ def apply(draw, doc, kind, A):
             mapping = {o: prefix + o for o in olds}
         for n in targets:
             n.name = A.Name(value=mapping[get(n)])
+    elif kind == "wrap-bare-inline-fragment":
+        # `{ a b }` -> `{ ... { a b } }` for drawn selection sets: an inline fragment without type condition selects on the
+        # same type, so nothing about validity (or the result) changes
+        for n in nodes:
+            if isinstance(n, A.SelectionSet) and n.selections and draw(st.integers(0, 2)) == 0:
+                i = draw(st.integers(0, len(n.selections) - 1))
+                j = draw(st.integers(i + 1, len(n.selections)))
+                inner = A.SelectionSet(selections=n.selections[i:j])
+                n.selections[i:j] = [A.InlineFragment(type_condition=None, directives=[], selection_set=inner)]
     elif kind == "name-collisions":
         # consistent renaming that makes names of different namespaces coincide: a fragment takes the name of a (named)
         # operation that spreads it directly; the other fragments take variable names
